@@ -319,7 +319,13 @@ def rule_handshake(ctx):
 # that raises on some device message ends the delivery to every client registered after it
 IMPORTS = [('C15', 'C15.MIRROR')]
 
+def rule_reentrant(ctx):
+    from .routermodel import check_reentrant
+    check_reentrant(ctx, "C05.REENTRANT", "client")
+
+
 RULES = [
+    ("C05.REENTRANT", rule_reentrant, "clients (un)registered from inside a delivery: everybody registered at its turn is served exactly once"),
     ("C05.PRED", rule_pred, "delivery truth table of Router.process_message over class x policies x sender x device equals the property's oracle"),
     ("C05.KEY", rule_key, "enableBLOB changes exactly blob_routing[sender][message.device]"),
     ("C05.DEFAULT", rule_default, "default policy is Never"),
